@@ -172,6 +172,19 @@ theorem C19_forward_queue (inp : RunInput) (hp : inp.runner = .process) (f : FSy
   let h := freach_inv hp hr
   ⟨h.q3, h.q1, h.q2⟩
 
+/-- the final report is the true one, as far as the oracle of the case decides it (`truthLite`, the dependency-free
+    part of the driver's monitor `C19_truth`): `add_success n` only if the action of `n` succeeded; `add_failure` with
+    `TaskFailed` / `TaskError` only if the action failed / raised; `DependencyError` after the start only if saving
+    failed, before it only if `get_status` answered `error` or the getargs values could not be fetched;
+    `skip_uptodate n` only if `n` is up-to-date (and not `--always-execute`) and not ignored -/
+theorem C19_report_true_to_oracle (inp : RunInput) (s : Sys) (hr : Reach inp s ∨ PReach inp s) :
+    truthLiteOrd inp s.events = true :=
+  (hr.elim reach_inv19 preach_inv19).tl
+
+theorem C19_report_true_to_oracle_process (inp : RunInput) (hp : inp.runner = .process) (f : FSys)
+    (hr : FReach inp f) : truthLiteOrd inp f.base.events = true :=
+  (freach_inv hp hr).fb.tl
+
 /-! ### the JSON reporter -/
 
 /-- `json`: whenever no task is left selected / executing (in particular at the end of a run) the `JsonReporter`
